@@ -2,6 +2,7 @@
    hcmd of coq/Engine/HistRun.v; extracted by coq/ExtractHist.v into histmodel.ml).
    Usage: hist_run hist          one history per input line, one result line per history
           hist_run hist-direct   the same through the extracted [step_run] / [is_clean] as they are (slow)
+          hist_run histd         histories of the recorded-deps model (HistDepsDefs.v), see the end of this comment
 
    [build], [apply_step], [clean_of] of HistDefs.v take the command function as a parameter.  `hist` passes a
    MEMOIZED [hcmd g] (a table from (statement, command hash, snapshot, output) to the hash value: the 64-bit arithmetic on
@@ -44,7 +45,18 @@
              statement order), nodes = the state after it (HistDry: the state before it)
       | F ok=<0|1> failed=<0|1> fe=<e> ts=<0|1> run=<e>+<e>.. nodes=...   failing build: ok = accepted by the scan,
              failed = exit flag "subcommand failed", fe = the statement that failed ("-" = none),
-             run = the commands STARTED, oldest first (the failing one is the last) *)
+             run = the commands STARTED, oldest first (the failing one is the last)
+
+   `histd` (HistDepsDefs.v, fragment ABD): the same input line plus
+     H=<e>:<n>+<n>..;<e>:..     the hidden reads of statement e (what its command reads besides its non-order-only manifest
+                                inputs and reports through the depfile); such a statement has deps kind 2 (deps = gcc);
+                                L= lists the nodes the manifest does not mention (hidden-only sources)
+   steps e / d / c / b, and x = the deps log is lost (all records dropped).  hok= and hp= are about the history without
+   the x steps; an e step may write an OUTPUT here (a file tampered with by hand: then hok=0).  Output: wf= frag=<frag_ABD> topo=<topo_ordered (inline g hid)> fragi=<frag_AB (inline g hid)>
+     hro=<hidden_reads_ordered> nru=<no_restat_upstream_of_deps> nip= hok= hp=<hist_present>, then per Build
+      | B ok= ts=1 run=.. nodes=<x><q>:<content>:<mtime>:<loghash>:<logmtime>:<depsmtime>:<n>+<n>..
+        q = content_of = clean_of_d (the clean build of the INLINED manifest); the last two fields are the node's deps-log
+        record: its mtime and the recorded nodes ("-:-" = no record, "<m>:-" = a record with no nodes) *)
 open Histmodel
 
 let rec pos_of_int n : positive =
@@ -110,7 +122,7 @@ let parse_step (t : string) : xstep =
      | _ -> failwith ("bad step " ^ t))
   | _ -> failwith ("bad step " ^ t)
 
-let hist_line (direct : bool) (l : string) : string =
+let parse_graph (l : string) =
   let kv = List.map (fun t -> match String.index_opt t '=' with
       | Some i -> (String.sub t 0 i, String.sub t (i + 1) (String.length t - i - 1))
       | None -> (t, "")) (split_ws l) in
@@ -138,6 +150,10 @@ let hist_line (direct : bool) (l : string) : string =
             g_producer = (fun n -> match Hashtbl.find_opt producer (int_of_nat n) with
                 | Some e -> Some (nat_of_int e) | None -> None);
             g_byloader = (fun n -> Hashtbl.mem byl (int_of_nat n)) } in
+  (kv, nnodes, ne, g)
+
+let hist_line (direct : bool) (l : string) : string =
+  let (kv, nnodes, ne, g) = parse_graph l in
   let steps = List.map parse_step (items ',' (field kv "S")) in
   let b x = if x then "1" else "0" in
   let js sep l = if l = [] then "-" else String.concat sep l in
@@ -208,6 +224,67 @@ let hist_line (direct : bool) (l : string) : string =
     steps;
   Buffer.contents buf
 
+
+(* ---- the recorded-deps model (HistDepsDefs.v): fragment ABD, statements with deps = gcc (deps kind 2, deps log) and
+   their hidden reads.  Steps e / d / c / b only. *)
+let histd_line (l : string) : string =
+  let (kv, nnodes, ne, g) = parse_graph l in
+  let htab = Hashtbl.create 16 in
+  List.iter (fun it -> match String.split_on_char ':' it with
+      | [e; ns] -> Hashtbl.replace htab (int_of_string e) (nids '+' ns)
+      | _ -> failwith "bad H") (items ';' (field kv "H"));
+  let hid e = match Hashtbl.find_opt htab (int_of_nat e) with Some l -> l | None -> [] in
+  (* x = the deps log is lost (every record dropped: HistDepsDefs.drop_deps for every node); no history step of the theorems *)
+  let xsteps = List.map (fun t -> if t = "x" then None else
+                            match parse_step t with P s -> Some s | _ -> failwith ("step outside histd: " ^ t))
+      (items ',' (field kv "S")) in
+  let steps = List.concat_map (function Some s -> [s] | None -> []) xsteps in
+  let b x = if x then "1" else "0" in
+  let js sep l = if l = [] then "-" else String.concat sep l in
+  let memo = Hashtbl.create 256 in
+  let key e h sn o = String.concat "," (string_of_int (int_of_nat e) :: string_of_int (int_of_nat o) :: hex_of_n h ::
+                      List.map (fun (i, c) -> match c with Some c -> hex_of_n c | None -> "-") sn) in
+  let mcmd e h sn o =
+    let k = key e h sn o in
+    match Hashtbl.find_opt memo k with
+    | Some v -> v
+    | None -> let v = hcmd g e h sn o in Hashtbl.add memo k v; v in
+  let gi = inline g hid in
+  let buf = Buffer.create 256 in
+  Buffer.add_string buf
+    (Printf.sprintf "wf=%s frag=%s topo=%s fragi=%s hro=%s nru=%s nip=%s hok=%s hp=%s"
+       (b (wf_b g (nat_of_int nnodes))) (b (frag_ABD g hid)) (b (topo_ordered gi)) (b (frag_AB gi))
+       (b (hidden_reads_ordered g hid)) (b (no_restat_upstream_of_deps g hid)) (b (no_inputless_phony g))
+       (b (hist_ok g steps)) (b (hist_present mcmd g hid (init_dstate g) steps)));
+  let nodes = List.init nnodes nat_of_int in
+  let es l = js "+" (List.map (fun e -> string_of_int (int_of_nat e)) l) in
+  let show ds =
+    let st' = ds.d_h in
+    js "," (List.map (fun n ->
+        let cl = b (opt_content_eqb (content_of st' n) (clean_of_d mcmd g hid ds n)) in
+        let fl = match st'.h_disk n with
+          | Some (m, c) -> Printf.sprintf "1%s:%s:%d" cl (hex_of_n c) (int_of_z m)
+          | None -> Printf.sprintf "0%s:-:-" cl in
+        let lg = match st'.h_blog n with
+          | Some (h, m) -> Printf.sprintf "%s:%d" (hex_of_n h) (int_of_z m)
+          | None -> "-:-" in
+        let dp = match ds.d_deps n with
+          | Some (m, l) -> Printf.sprintf "%d:%s" (int_of_z m) (es l)
+          | None -> "-:-" in
+        fl ^ ":" ^ lg ^ ":" ^ dp) nodes) in
+  let ds = ref (init_dstate g) in
+  List.iter (fun s ->
+      match s with
+      | None -> ds := List.fold_left drop_deps !ds nodes
+      | Some (Build t) ->
+        (match dbuild mcmd g hid !ds t with
+         | Some ds' ->
+           Buffer.add_string buf (Printf.sprintf " | B ok=1 ts=1 run=%s nodes=%s" (es (trace_delta !ds.d_h ds'.d_h)) (show ds'));
+           ds := ds'
+         | None -> Buffer.add_string buf (Printf.sprintf " | B ok=0 ts=1 run=- nodes=%s" (show !ds)))
+      | Some s -> ds := dapply_step mcmd g hid !ds s) xsteps;
+  Buffer.contents buf
+
 let each_line f =
   try while true do
     let l = input_line stdin in
@@ -217,4 +294,5 @@ let each_line f =
 let () = match Sys.argv.(1) with
   | "hist" -> each_line (hist_line false)
   | "hist-direct" -> each_line (hist_line true)
+  | "histd" -> each_line histd_line
   | c -> prerr_endline ("unknown component " ^ c); exit 2
